@@ -356,7 +356,8 @@ pub fn generate(
                     let field_name = ::std::clone::Clone::clone(&field_name);
                     move |msg| {
                         let schema_env = ::std::clone::Clone::clone(&schema_env);
-                        let query_env = ::std::clone::Clone::clone(&query_env);
+                        // every event collects its own field errors
+                        let query_env = query_env.with_separate_errors();
                         let field = ::std::clone::Clone::clone(&field);
                         let field_name = ::std::clone::Clone::clone(&field_name);
                         async move {
